@@ -27,6 +27,17 @@ class CFG:
             B.succs = b['s']
             B.unreach = b.get('u', [False] * len(b['s']))
             B.noreturn = b.get('noreturn', False)
+            # clang reports the whole `a && b` as the condition of the block that evaluates its last operand; the value
+            # that decides the branch is the operand evaluated last in this block
+            c = B.cond
+            while c is not None and c['k'] == 'BinaryOperator' and c.get('op') in ('&&', '||'):
+                if B.elems and B.elems[-1] is not c and B.elems[-1]['k'] != 'DeclStmt':
+                    c = B.elems[-1]
+                    if c['k'] == 'BinaryOperator' and c.get('op') in ('&&', '||'):
+                        c = None
+                    break
+                c = c['c'][1]
+            B.cond = c
             B.preds = []
             self.blocks[B.id] = B
         for B in self.blocks.values():
